@@ -700,6 +700,8 @@ def run_function_backward(interp: Any, node: tz.FunctionNode, g: LinComb) -> Lis
     bwd = interp.getattr(node.cls, "backward")
     out = interp.call(bwd, [node.fctx, G], {})
     outs = list(out) if isinstance(out, (tuple, list)) else [out]
+    if len(outs) > node.n_args and all(o is None for o in outs[node.n_args:]):
+        outs = outs[: node.n_args]  # ASSUMED: autograd tolerates extra trailing None gradients
     if len(outs) != node.n_args:
         raise PyRaise("RuntimeError", f"function backward returned {len(outs)} gradients, expected {node.n_args}")
     res: List[Optional[LinComb]] = []
